@@ -36,7 +36,7 @@ func ToASCII(addr string) (string, error) {
 	}
 
 	for _, ch := range mbox {
-		if ch > 128 {
+		if ch >= 128 {
 			return addr, ErrUnicodeMailbox
 		}
 	}
